@@ -366,7 +366,7 @@ def st_case(draw, merges=False):
         if draw(st.integers(0, 4)) == 0:
             c["tag2"] = 2 * n + 1     # the same commit was built twice
     pins = sorted([c["tag"] for c in tagged] + [c["tag2"] for c in tagged if c.get("tag2") is not None])
-    names = draw(st.lists(st.sampled_from(["release/1.0", "release/2.0", "release/10.0", "release/2.10", "master"]),
+    names = draw(st.lists(st.sampled_from(["release/1.0", "release/2.0", "release/10.0", "release/2.10", "master", "release/0.9", "release/0.0"]),
                           min_size=1, max_size=4, unique=True))
     names.sort(key=fakegit.branch_sort_key)
     pcommits = []
